@@ -545,6 +545,22 @@ type sizeOpt struct {
 	Via    string
 }
 
+// leadOpt is a sizeOpt whose content starts with a BOM ("bom") or two ("bom2").
+type leadOpt struct {
+	sizeOpt
+	Lead string
+}
+
+// bomOptions: file contents that start with a UTF-8 BOM (Helm trims it from
+// the loaded data; the bytes still count against the limits), mixed with a few
+// plain files. Sequences are enumerated only if they hold at least one BOM file.
+func bomOptions(F, T int64) (bom, plain []leadOpt) {
+	b := func(size int64, via, lead string) leadOpt { return leadOpt{sizeOpt{"reg", size, -1, via}, lead} }
+	bom = []leadOpt{b(3, "", "bom"), b(6, "", "bom2"), b(4, "", "bom"), b(F, "", "bom"), b(F, "", "bom2"), b(F+1, "", "bom"), b(max64(T-2*F, 3), "", "bom"), b(F, "pax", "bom")}
+	plain = []leadOpt{b(0, "", ""), b(1, "", ""), b(F-1, "", ""), b(F, "", "")}
+	return
+}
+
 func sizeOptions(F, T int64) []sizeOpt {
 	o := []sizeOpt{
 		{"reg", 0, -1, ""}, {"reg", 1, -1, ""}, {"reg", F - 1, -1, ""}, {"reg", F, -1, ""}, {"reg", F + 1, -1, ""},
@@ -619,6 +635,78 @@ func phaseSizes(x *explorer) {
 				}
 			}
 		}
+		// BOM-prefixed contents: all sequences of <=3 entries over bom+plain options with at least one BOM file
+		tBom := time.Now()
+		bo, pl := bomOptions(F, T)
+		mixed := append(append([]leadOpt{}, bo...), pl...)
+		bomCases := 0
+		for l := 1; l <= 3; l++ {
+			idx = make([]int, l)
+			for {
+				hasBom := false
+				es := make([]Entry, l)
+				for i, j := range idx {
+					es[i] = mk(i, mixed[j].sizeOpt)
+					es[i].Lead = mixed[j].Lead
+					if mixed[j].Lead != "" {
+						hasBom = true
+					}
+				}
+				if hasBom {
+					bomCases++
+					x.do(Case{EP: "loadfiles", Entries: es, FileLimit: F, TotalLimit: T})
+				}
+				i := l - 1
+				for i >= 0 {
+					idx[i]++
+					if idx[i] < len(mixed) {
+						break
+					}
+					idx[i] = 0
+					i--
+				}
+				if i < 0 {
+					break
+				}
+			}
+		}
+		// many small BOM-prefixed files around (and well beyond) the total limit
+		type fam struct {
+			lead string
+			s    int64
+		}
+		fams := []fam{{"bom", 3}, {"bom", 4}, {"bom", 7}, {"bom", 61}, {"bom", F / 2}, {"bom", F}, {"bom2", 6}, {"bom2", 7}, {"bom2", 61}, {"bom2", F / 2}, {"bom2", F}}
+		for _, fm := range fams {
+			minSize := int64(3)
+			if fm.lead == "bom2" {
+				minSize = 6
+			}
+			if fm.s < minSize {
+				continue
+			}
+			for _, tot := range []int64{T - 1, T, T + 1, T + fm.s, 3 * T} {
+				n := tot / fm.s
+				if n < 1 {
+					continue
+				}
+				var es []Entry
+				for i := int64(0); i < n; i++ {
+					es = append(es, Entry{Name: fmt.Sprintf("x/f%d", i), Type: "reg", Size: fm.s, Actual: -1, Lead: fm.lead})
+				}
+				if rest := tot - n*fm.s; rest > 0 {
+					e := Entry{Name: "x/rest", Type: "reg", Size: rest, Actual: -1}
+					if rest >= 3 {
+						e.Lead = "bom"
+					}
+					es = append(es, e)
+				}
+				bomCases += 2
+				x.do(Case{EP: "loadfiles", Entries: es, FileLimit: F, TotalLimit: T})
+				x.do(Case{EP: "loadarchive", Entries: with([]Entry{reg("x/Chart.yaml", chartYAML("x"))}, true, es...), FileLimit: F, TotalLimit: T})
+			}
+		}
+		x.c.Bound(fmt.Sprintf("size_bom_cases_%d_%d", F, T), fmt.Sprint(bomCases))
+		x.c.Count("phase_ms_sizes_bom", time.Since(tBom).Milliseconds())
 		// many small files around the total limit
 		for _, s := range []int64{1, 7, 61, F / 2, F} {
 			for _, tot := range []int64{T - 1, T, T + 1, T + s} {
